@@ -441,11 +441,16 @@ def valid_combinations(ctx, env, watch):
                     ctx.nontriv(url)
         # event schedules at their boundaries: zero / negative interval, duration, start, timescale, count; unknown version
         for ev in ('ping', 'scte35'):
-            for fld, bad in (('interval', ['0', '-5']), ('duration', ['-1', '0']), ('timescale', ['0', '-1']), ('start', ['-1']), ('count', ['-1']),
-                             ('version', ['7', '-1']), ('inband', ['0'])):
+            # ... and at the upper end: values beyond the width of the fields they are written into (emsg: 32 bits;
+            # splice_insert: 8-bit avail counts, 16-bit program id, 33-bit durations), with a schedule dense enough
+            # (interval=100) that the requested segment carries an event
+            for fld, bad in (('interval', ['0', '-5', '99999999999']), ('duration', ['-1', '0', '99999999999', '18446744073709551616']),
+                             ('timescale', ['0', '-1', '10000000', '99999999999']), ('start', ['-1', '99999999999999']),
+                             ('count', ['-1', '510', '100000']), ('version', ['7', '-1']), ('inband', ['0']),
+                             ('program_id', ['70000', '-1', '4294967296']), ('value', ['x' * 300])):
                 for b in bad:
                     for t in ('/dash/vod/bbb/bbb_v7/1.m4v', '/dash/vod/bbb/bbb_v7/3.m4v', '/dash/live/bbb/hand_made.mpd', '/dash/vod/bbb/manifest_e.mpd'):
-                        for extra in ('', '&%s__inband=0&%s__count=2' % (ev, ev)):
+                        for extra in ('', '&%s__inband=0&%s__count=2' % (ev, ev), '&%s__interval=100' % ev if fld != 'interval' else '&%s__count=3' % ev):
                             url = '%s?events=%s&%s__%s=%s%s' % (t, ev, ev, fld, b, extra)
                             st, site, r = watch.get(c, url)
                             ctx.count('http:event-boundaries')
